@@ -824,7 +824,7 @@ func newWorld(seed int64, poolSize int) (w *world, refused []string, junkAccepte
 			w.rels[s.ID] = append(w.rels[s.ID], rel.ID)
 		}
 	}
-	refused = append(refused, w.addQualFamilies(seed, poolSize/8, parser)...)
+	refused = append(refused, w.addQualFamilies(seed, 28+poolSize/30, parser)...)
 	return w, refused, junkAccepted
 }
 
@@ -875,7 +875,7 @@ func Run(r *ev.Run) {
 		"distinct_nontrivial counts distinct (handler-kind chain shape, rule kind that decided, statement kind, verdict) tuples; " +
 		"rows phase: every INSERT ... VALUES statement of the pool gets row-count relatives (copy of a row appended; a row whose literals differ from every row's literal in the same column appended / prepended / inserted; a wider row appended; first / last row removed) and " +
 		"patterns derived from the statement and from its relatives with one more row are asked, alone in [allow: p, denyall] and [deny: p], about the statement and all its relatives; " +
-		"qualified-name phase: every pool statement (quick: every fifth per dialect) and extra statements with table-qualified columns / stars form a family with the same statement spelled with schema qualifiers on a subset of its name occurrences " +
+		"qualified-name phase: every pool statement (quick: every ninth, thorough: every second, per dialect) and extra statements with table-qualified columns / stars form a family with the same statement spelled with schema qualifiers on a subset of its name occurrences " +
 		"(tables in FROM / JOIN / INSERT INTO / UPDATE / DELETE FROM / sub-selects, column and star qualifiers; 9 kinds of subsets, two schemas); pattern, table and query rules made from EVERY member (so rules with and without schema) " +
 		"are asked, alone in allow+denyall / deny / query_ignore and in a random chain, about every member, under the MySQL and the PostgreSQL dialect"
 	r.Assumptions = []string{
@@ -924,7 +924,7 @@ func Run(r *ev.Run) {
 	w.rowsPhase(r, r.Pick(7, 31))
 	r.Extra("wall_rows_phase_s", time.Since(t0).Seconds())
 	t0 = time.Now()
-	w.qualPhase(r, r.Pick(3, 15), r.Pick(5, 1))
+	w.qualPhase(r, r.Pick(3, 7), r.Pick(9, 2))
 	r.Extra("wall_qual_phase_s", time.Since(t0).Seconds())
 	qualGuards(r)
 
